@@ -219,6 +219,9 @@ type worker struct {
 
 	state any // global interpreter state as `fq` sets it up (options stack)
 
+	cover    []*Seed // coverage seeds of the structural section
+	coverMax int     // per format
+
 	jobs chan *job
 	res  chan outcome
 	cur  *job // job the evaluator is working on
